@@ -25,7 +25,9 @@ Tagged(p, o, e, pre, post, rec) ==
   \cup (IF (rec.o.hb_timer > 0) # post.hbRun THEN {"C17.heartbeat_timer"} ELSE {})
   \cup (IF SetOf(rec.o.running) # SetOf(post.cons) \cup SetOf(post.closing) THEN {"C16.running"} ELSE {})
   \* nothing outstanding, nothing scheduled, not stable, not reported: the member is wedged
-  \cup (IF post.startD = "pending" /\ post.stop = "no" /\ rec.o.outstanding = <<>> /\ rec.o.closing = <<>> /\ rec.o.rejoin_timers = 0
+  \* (a heartbeat in flight is not a step toward membership)
+  \cup (IF post.startD = "pending" /\ post.stop = "no" /\ SelectSeq(rec.o.outstanding, LAMBDA x : x # "hb") = <<>>
+           /\ rec.o.closing = <<>> /\ rec.o.rejoin_timers = 0
            /\ ~(rec.o.hb_timer > 0 /\ ~post.rejoinNeeded) THEN {"C17.never_idle"} ELSE {})
 
 Clauses ==
